@@ -174,6 +174,37 @@ def specShape (w : World) (f : FieldD) : String :=
   if f.label = 3 then (if f.type = 11 && isMapEntryFqn w f.typeName then "map" else "repeated")
   else if f.type = 14 then "enum" else if f.type = 11 then "embed" else "scalar"
 
+/-- every method with the declared messages its input / output name (declarative) -/
+def specMio (w : World) : List (Ref × Ref × Ref) :=
+  ((idx w.files).map fun (p : Nat × FileD) => ((idx p.2.services).map fun (q : Nat × ServiceD) =>
+    (idx q.2.methods).map fun (m : Nat × MethodD) =>
+      ((⟨p.1, [6, q.1, 2, m.1]⟩ : Ref), declaredAs w m.2.input .msg, declaredAs w m.2.output .msg)).flatten).flatten
+
+/-- declarative element: the declared entity of that name and kind -/
+def specElem (w : World) (f : FieldD) : Elem :=
+  if f.type = 14 then .enum 14 (declaredAs w f.typeName .enum)
+  else if f.type = 11 then .embed 11 (declaredAs w f.typeName .msg)
+  else .scalar f.type
+
+/-- the declarative type of a field or extension: classification by `specShape`'s table, every
+    referenced enum / message THE declaration bearing that name (no index, no timeline) -/
+def specType (w : World) (f : FieldD) : FType :=
+  if f.label = 3 then
+    if f.type = 14 then .repeated (.enum 14 (declaredAs w f.typeName .enum))
+    else if f.type = 11 then
+      if isMapEntryFqn w f.typeName then
+        match w.msgAt (declaredAs w f.typeName .msg) with
+        | some (h, _) =>
+          (match h.fields with
+           | k :: v :: _ => .map (specElem w k) (specElem w v)
+           | _ => .map (.scalar 0) (.scalar 0))
+        | none => .map (.scalar 0) (.scalar 0)
+      else .repeated (.embed 11 (declaredAs w f.typeName .msg))
+    else .repeated (.scalar f.type)
+  else if f.type = 14 then .enum (declaredAs w f.typeName .enum)
+  else if f.type = 11 then .embed (declaredAs w f.typeName .msg)
+  else .scalar f.type
+
 def judgeC03 (w : World) (o : C03Obs) : Option String :=
   if o.failed then some "building failed" else
   let owners := allFields w ++ allExts 0 w.files
@@ -200,8 +231,7 @@ def judgeC03 (w : World) (o : C03Obs) : Option String :=
   match bad with
   | some (r, f) => some s!"field {f.name} {repr r.path}: type not classified / resolved / owned as the descriptor says"
   | none =>
-    let methods := ((idx w.files).map fun (fi, f) => ((idx f.services).map fun (si, s) =>
-        (idx s.methods).map fun (mi, m) => ((⟨fi, [6, si, 2, mi]⟩ : Ref), declaredAs w m.input .msg, declaredAs w m.output .msg)).flatten).flatten
+    let methods := specMio w
     if o.methods != methods.mergeSort pairLe then some "methods: input / output do not resolve to the declared messages" else
     let exts := (allExts 0 w.files).map fun (r, x) => (r, declaredAs w x.extendee .msg, true)
     if o.exts != exts.mergeSort pairLe then some "extensions: extendee not the declared message, or it does not list the extension back" else
